@@ -429,11 +429,18 @@ class XCopyUnit(_ListUnit):
         s, how = self.sets(tier)[0]
         for what in ("target-foreign-key", "segment-foreign-key", "unknown-target-type", "unknown-device-type", "unknown-segment-type", "lu_id_type"):
             out.append({"set": s, "how": list(how), "refusal": what})
+        # every segment descriptor type x every key that belongs to ANOTHER segment type (or to no type at all): refused
+        all_keys = sorted({k for f in self.seg.values() for k in f.fields} | {"descriptor_length", "unexpected_key"})
+        for code in sorted(self.seg):
+            own = set(self.seg[code].fields) | {"descriptor_length"}
+            for k in all_keys:
+                if k not in own:
+                    out.append({"set": s, "how": list(how), "refusal": "segment-key", "code": code, "key": k})
         return out
 
     def case_id(self, case):
         if "refusal" in case:
-            return "set=%s,refusal=%s" % (case["set"], case["refusal"])
+            return "set=%s,refusal=%s%s" % (case["set"], case["refusal"], ",type=%02X,key=%s" % (case["code"], case["key"]) if "code" in case else "")
         return "set=%s,targets=%s,segments=%s,inline=%d" % (
             case["set"], "+".join("%02X:%d:%s" % tuple(t) for t in case["targets"]) or "none",
             "+".join("%02X:%d" % tuple(s) for s in case["segments"]) or "none", case["inline"])
@@ -558,6 +565,10 @@ class XCopyUnit(_ListUnit):
             s["descriptor_type_code"] = "no such segment type"
         elif what == "lu_id_type":
             t["lu_id_type"] = 1
+        elif what == "segment-key":
+            s = {k: 0 for k in self.seg[case["code"]].fields}
+            s["descriptor_type_code"] = case["code"]
+            s[case["key"]] = 1
         if self.lid4:
             return X.call(K, op, 0, 0, 0, 0, 0, 0, [t], [s], bytearray())
         return X.call(K, op, 0, 0, 0, 0, [t], [s], bytearray())
